@@ -1,5 +1,6 @@
 import Flodym.Driver.ArrayCmds
 import Flodym.Build
+import FlodymGen.IOSites
 /-!
 # Driver commands for stream `build` (systems from definitions and dimension files)
 -/
@@ -69,12 +70,13 @@ def buildStep (st : Store) (b : BuildState) (toks : List String) : Option (Build
       | _ => (b, "err"))
   | ["b_flow", f, t, ls, ov] =>
     some ({ b with flows := b.flows ++ [{ fromName := untilde f, toName := untilde t, letters := lettersOf ls,
-                                          nameOverride := if ov == "-" then none else some (untilde ov) }] }, "ok")
+                                          nameOverride := if ov == "-" then none else if ov == "<empty>" then some "" else some (untilde ov) }] }, "ok")
   | ["b_stock", name, proc, ls, tl, cls, lm, solver] =>
     some (match parseCls? cls with
       | some c =>
         ({ b with stocks := b.stocks ++ [{ name := untilde name, process := if proc == "-" then none else some (untilde proc),
-                                           letters := lettersOf ls, timeLetter := tl, cls := c,
+                                           -- `-`: no time letter given, the definition's default applies
+                                           letters := lettersOf ls, timeLetter := if tl == "-" then Gen.stockDefaultTimeLetter else tl, cls := c,
                                            lifetime := if lm == "none" then none else some lm, solver := solver }] }, "ok")
       | none => (b, "err"))
   | "b_param" :: name :: ls :: vals =>
@@ -93,7 +95,7 @@ def buildStep (st : Store) (b : BuildState) (toks : List String) : Option (Build
           match buildSystem? d dims b.naming, vals with
           | some sys, some pv =>
             if sys.params.all (fun p => ((pv.find? (·.1 == p.1)).map (·.2.length)) == some (DimSet.shape p.2).prod)
-            then showSystem sys pv else "err"
+            then showSystem sys pv ++ " | D " ++ ",".intercalate (dims.map (·.letter.toString)) else "err"
           | _, _ => "err")
   | ["b_todfs"] =>
     some (b, match b.dimHandles.mapM st.dim? with
